@@ -557,6 +557,7 @@ impl Args {
         // `--stale`: build every state with stale copies of destroyed elements in its dead slots
         crate::mapsys::set_stale(a.flag("stale"));
         crate::mapsys::set_ctor(a.get("ctor"));
+        crate::mapsys::set_prehist(a.get("prehist"));
         a
     }
     pub fn get(&self, key: &str) -> Option<&str> {
